@@ -154,6 +154,13 @@ def coverage_schedules(rng):
         c, d = rng.sample(range(len(COMPS)), 2)
         out.append(("resources", [Sys(False, [(K_MUT, c)], ("none",), [(a, r)], []), Sys(rng.random() < 0.5, [(K_MUT, d)], ("none",), [(b, r)], []),
                                   Sys(False, [(K_REF, c)], ("none",), [(K_REF, r)], [])]))
+    # a resource held by a task that is not the last of its stage, wanted by the next stage
+    for (a, b, holder) in [(K_MUT, K_MUT, 0), (K_MUT, K_REF, 1), (K_REF, K_MUT, 0)]:
+        r = rng.randrange(len(RES))
+        c0, c1, c2, c3 = rng.sample(range(len(COMPS)), 4)
+        first = [Sys(False, [(K_MUT, c0)], ("none",), [], []), Sys(rng.random() < 0.4, [(K_MUT, c1)], ("none",), [], []), Sys(False, [(K_REF, c3)], ("none",), [], [])]
+        first[holder].res = [(a, r)]
+        out.append(("resourceheld", first + [Sys(False, [(K_MUT, c2)], ("none",), [(b, r)], [])]))
     # statically conflicting, disjoint by filter (the run-time add-on path)
     for _ in range(4):
         c, f = rng.sample(range(len(COMPS)), 2)
